@@ -9,6 +9,7 @@ from .symex import Entity, cond_fingerprint, normal
 from .types import snth, sunit
 from .types import (TBool, TFun, TInt, TMap, TNone, TOpaque, TOpt, TRef, TSeq, TStr,
                     TTuple, TUnion, parse_type)
+from .values import PathEnds
 from .values import (NONE, SV, OutsideSubset, TBottom, TypeMismatch, box, coerce, fresh,
                      merge, mk_bool, mk_int, unbox, seq_literal)
 
@@ -31,7 +32,12 @@ class StmtMixin:
                 if not normal(cur):
                     nxt.append(cur)
                     continue
-                nxt.extend(self.exec_stmt(cur, s))
+                try:
+                    nxt.extend(self.exec_stmt(cur, s))
+                except PathEnds:
+                    # (forks made inside this statement are lost with it; the failed safety
+                    # obligation that ended the path is already recorded)
+                    pass
             states = nxt
             if len(states) > self.max_paths:
                 raise OutsideSubset('path explosion (> %d paths)' % self.max_paths)
@@ -168,7 +174,12 @@ class StmtMixin:
                     return None
                 s3, idx = res[0]
                 pl2, cont2 = self.narrow_place(s3, pl, cont, e, want='subscript')
+                if isinstance(cont2.ty, TUnion):
+                    want_map = isinstance(idx, SV) and (idx.ty == TStr or (isinstance(idx.ty, TOpt) and idx.ty.inner == TStr))
+                    pl2, cont2 = self.pick_alt(s3, pl2, cont2, e, (lambda t: isinstance(t, TMap)) if want_map
+                                               else (lambda t: isinstance(t, TSeq)))
                 if isinstance(cont2.ty, TMap):
+                    idx = self.map_key(s3, cont2, idx, e)
                     has = self.map_has(cont2, idx)
                     self.oblige(s3, has, 'safety', 'dict-key', node=e,
                                 info={'claim': 'key present in dict (KeyError)'})
@@ -319,6 +330,7 @@ class StmtMixin:
         if isinstance(cont.ty, TUnion):
             pl, cont = self.pick_alt(st, pl, cont, node, lambda t: isinstance(t, TMap))
         if isinstance(cont.ty, TMap):
+            idx = self.map_key(st, cont, idx, node)
             new = self.map_set(cont, idx, v)
             self.write_place(st, pl, new, node)
             return
@@ -334,6 +346,10 @@ class StmtMixin:
         """Narrow a union-typed container to its unique alternative satisfying
         pred, with a safety obligation on the tag."""
         cands = [(tag, t) for tag, t in cont.ty.alts if pred(t)]
+        if len(cands) > 1:
+            feas = [(tag, t) for tag, t in cands if self.feasible(st, cont.ty.is_tag(tag, cont.t), timeout_ms=4000)]
+            if feas:
+                cands = feas
         if len(cands) != 1:
             raise OutsideSubset('ambiguous union alternative')
         tag, t = cands[0]
@@ -351,6 +367,10 @@ class StmtMixin:
             v = self.read_field(st, v, v.ty.cls, 'items')
         if isinstance(v.ty, TTuple):
             v = seq_literal(list(v.t), self.classes)
+        if isinstance(v.ty, TOpt):
+            v = self.unwrap_opt(st, v, node, what)
+        if isinstance(v.ty, TUnion):
+            v = self.narrow_union(st, v, node, what, lambda t: isinstance(t, TSeq))
         self.write_place(st, pl, coerce(v, cont.ty, self.classes), node)
 
     def exec_AugAssign(self, st, s):
@@ -770,6 +790,8 @@ class StmtMixin:
             raise OutsideSubset('iteration over entity')
         if isinstance(it.ty, TOpt):
             it = self.unwrap_opt(st, it, node, 'iteration')
+        if isinstance(it.ty, TUnion):
+            it = self.narrow_union(st, it, node, 'iteration', lambda t: isinstance(t, (TSeq, TMap)) or t == TStr)
         ty = it.ty
         if isinstance(ty, TSeq):
             if ty.elem is TBottom:
